@@ -235,8 +235,9 @@ def judge(fx, text, obs, drained_invocations=None):
         # some notification entries were answered: one-to-one is broken (C03) because a notification
         # got a response (C04); ids are not compared, the alignment being ambiguous
         classes = sorted(set(e.cls for e in entries if e.exp is None))
-        findings.append(("answered-notification", "+".join(classes)[:80],
-                         {"got": len(actual_list), "expected": len(exp), "output": obs.output}))
+        findings.append(("answered-notification", "notification:in-batch",
+                         {"got": len(actual_list), "expected": len(exp), "output": obs.output,
+                          "notification_classes": classes}))
         findings.append(("count", "extra-responses:notification-answered",
                          {"got": len(actual_list), "expected": len(exp), "output": obs.output}))
     elif len(actual_list) > len(exp):
